@@ -100,6 +100,20 @@ class DynamicSGEDecider(SynthesisDecider):
             )
 
 
+class DynamicSGESource(RandomSource):
+    """Answers the draws made by refinements (metahandlers) from the genotype, through the decider."""
+
+    def __init__(self, decider: DynamicSGEDecider):
+        self.decider = decider
+
+    def randint(self, min: int, max: int) -> int:
+        return self.decider.random_int(min, max)
+
+    def random_float(self, min: float, max: float) -> float:
+        v = self.decider.read(float)
+        return (v % MAX_GENE_VALUE + 1) / MAX_GENE_VALUE * (max - min) + min
+
+
 class DynamicStructuredGrammaticalEvolutionRepresentation(
     Representation[Genotype, TreeNode],
     RepresentationWithMutation[Genotype],
@@ -127,7 +141,7 @@ class DynamicStructuredGrammaticalEvolutionRepresentation(
 
     def genotype_to_phenotype(self, genotype: Genotype) -> TreeNode:
         decider = DynamicSGEDecider(genotype, self.grammar, self.max_depth)
-        return random_tree(genotype.random, self.grammar, decider)
+        return random_tree(DynamicSGESource(decider), self.grammar, decider)
 
     def mutate(self, random: RandomSource, genotype: Genotype, **kwargs) -> Genotype:
         dna = deepcopy(genotype.dna)
